@@ -91,9 +91,11 @@ pub fn ipc_artefact(r: &mut Rng, stream: bool) -> Option<Artefact> {
     let ncols = 2 + r.below(3);
     let all: Vec<usize> = (0..18).collect();
     let ids = pick_ids(r, &all, ncols);
-    let (b1, b2) = if exotic {
-        let b = mk_exotic_batch(r, ncols, n)?; (b.clone(), b.slice(0, n / 2))
-    } else { let b = mk_batch(r, &ids, n); let b2 = b.slice(1, n - 1); (b, b2) };
+    let mut r3 = r.clone(); let _ = r.next();
+    // exotic layouts may be rejected (or panic) in RecordBatch::slice / the writer: such artefacts are skipped
+    let (b1, b2) = quietly(move || Some(if exotic {
+        let b = mk_exotic_batch(&mut r3, ncols, n)?; let b2 = b.slice(0, n / 2); (b, b2)
+    } else { let b = mk_batch(&mut r3, &ids, n); let b2 = b.slice(1, n - 1); (b, b2) }))?;
     let comp = r.below(4);
     let mut seed2 = r.clone();
     quietly(move || {
@@ -115,7 +117,8 @@ pub fn ipc_artefact(r: &mut Rng, stream: bool) -> Option<Artefact> {
 pub fn flight_artefact(r: &mut Rng) -> Option<Artefact> {
     let n = 2 + r.below(6);
     let k = 2 + r.below(2); let ids = pick_ids(r, &(0..18).collect::<Vec<_>>(), k);
-    let b = if r.bool() { mk_exotic_batch(r, 2, n)? } else { mk_batch(r, &ids, n) };
+    let ex = r.bool(); let mut r3 = r.clone(); let _ = r.next();
+    let b = quietly(move || if ex { mk_exotic_batch(&mut r3, 2, n) } else { Some(mk_batch(&mut r3, &ids, n)) })?;
     quietly(move || {
         let fds = arrow_flight::utils::batches_to_flight_data(&b.schema(), vec![b.clone()]).ok()?;
         let mut bytes = Vec::new();
